@@ -477,12 +477,14 @@ class Case:
         return Case(self.fam, self.prefix, ops, self.meta)
 
 
-def ddmin(case, still_fails_batch, max_rounds=40):
-    """delta-debug the op list. still_fails_batch(list of Case) -> list of bool"""
+def ddmin(case, still_fails_batch, max_rounds=40, budget_s=60):
+    """delta-debug the op list. still_fails_batch(list of Case) -> list of bool. Shrinking stops after [budget_s] seconds (a
+    mutant that makes the implementation hang costs seconds per candidate): the smallest failing case found so far is reported"""
     cur = case
     n = 2
     rounds = 0
-    while len(cur.ops) >= 2 and rounds < max_rounds:
+    t_end = time.time() + budget_s
+    while len(cur.ops) >= 2 and rounds < max_rounds and time.time() < t_end:
         rounds += 1
         L = len(cur.ops)
         chunk = max(1, L // n)
@@ -618,7 +620,7 @@ class Differential:
                 corr_ok, of, kn = self.judge(c, il, model[i], spec[b][i])
                 res.append(of is not None and kn is None)
             return res
-        small = ddmin(case, lambda cs: [r for r in fails_only(self, cs, build)])
+        small = ddmin(case, lambda cs: [r for r in fails_only(self, cs, build)], budget_s=getattr(self, 'shrink_budget_s', 60))
         impl, model, spec = self.eval_cases([small])
         self.current_model_line = model[0]
         run.violation({
@@ -639,7 +641,7 @@ class Differential:
             def differs(cands):
                 impl, model, spec = self.eval_cases(cands)
                 return [impl[b][i] != model[i] for i in range(len(cands))]
-            small = ddmin(c, differs)
+            small = ddmin(c, differs, budget_s=getattr(self, 'shrink_budget_s', 60))
             impl, model, spec = self.eval_cases([small])
             run.violation({
                 "kind": "correspondence-broken (model and implementation disagree; the property oracle held on every explored input)",
